@@ -218,6 +218,15 @@ class Client:
             return None
         self.tracer = global_trace
 
+        def profiler(frame, event, arg):
+            # finer pre-emption (a quarter of the runs): the return of every C
+            # function called directly from a library frame is a decision
+            # point too, which splits source lines such as
+            # `table[k] = table.get(k, 0) + 1` or `if k not in cache: cache.clear()`
+            if event == "c_return" and frame.f_code.co_filename.startswith(prefix):
+                self.on_creturn()
+        self.profiler = profiler if world_.plan.get("knobs", {}).get("fine") else None
+
     # ---- decision / fault points ------------------------------------------
     def on_line(self, frame):
         w = self.world
@@ -237,6 +246,12 @@ class Client:
                 self.fired.append(f)
                 w.fault_fired(self, f, site)
                 raise LINE_EXC[f["exc"]]()
+        w.sched.decide(self.idx, [self.idx, self.op["id"], self.k], in_lib=True)
+
+    def on_creturn(self):
+        w = self.world
+        self.k += 1
+        w.stats["c_returns"] = w.stats.get("c_returns", 0) + 1
         w.sched.decide(self.idx, [self.idx, self.op["id"], self.k], in_lib=True)
 
     def on_io(self, what, name):
@@ -291,7 +306,9 @@ class Client:
         self.k += 1
         w.stats["lock_waits"] = w.stats.get("lock_waits", 0) + 1
         was = sys.gettrace()
+        wasp = sys.getprofile()
         sys.settrace(None)
+        sys.setprofile(None)
         self.waiting_lock = True
         try:
             w.sched.block(self.idx, [self.idx, self.op["id"], self.k], pred)
@@ -299,6 +316,7 @@ class Client:
             w.sched.state[self.idx] = "ready"
             w.sched.pred[self.idx] = None
         finally:
+            sys.setprofile(wasp)
             sys.settrace(was)
 
     # ---- running library code ---------------------------------------------
@@ -306,11 +324,15 @@ class Client:
         """Run fn (library code) traced; returns ("ok", value) or
         ("raise", exc)."""
         try:
+            if self.profiler is not None:
+                sys.setprofile(self.profiler)
             sys.settrace(self.tracer)
             try:
                 v = fn()
             finally:
                 sys.settrace(None)
+                if self.profiler is not None:
+                    sys.setprofile(None)
             return "ok", v
         except (Abort, Deadlock):
             raise
